@@ -15,7 +15,7 @@ PID = "C05"
 
 
 def _args(tier, seed):
-    return {"liveness": True, "seed": seed, "runs": 150 if tier == "quick" else 6000, "prefix": 120, "nmax": 7, "cuts": 3 if tier == "quick" else 40}
+    return {"liveness": True, "seed": seed, "runs": 150 if tier == "quick" else 6000, "prefix": 120, "nmax": 7, "cuts": 0, "allcuts": True}
 
 
 def run(tier, seed):
